@@ -16,14 +16,16 @@ META = {
             "step is back in the caller with the caller's defer list (C10_return_defers_once_partial; excluded: `return <expr>` "
             "with UNNAMED results, where the code evaluates <expr> between RunDefers and Return). Tie: every run compares (a) the REAL compiler's control skeleton with "
             "compileCtl, (b) the REAL VM's marker trace at optimizer 0 and 2 with the VM model and with CtlSpec, for "
-            "generated programs nesting try/catch, defer, panic/recover, loops with break/continue, calls and functions "
+            "generated programs nesting try/catch, defer, panic/recover, loops with break/continue, `if` on a loop counter "
+            "(so a return written ahead of the function's defer statements is executed after they registered calls), calls and functions "
             "with an unnamed / a named result whose return statements carry an expression that emits, raises or panics; "
             "direct oracles: a reference interpreter written from the documented semantics checks the real traces and the "
             "sequence of deferred calls started (each registered call once, last registered first), and — needing no "
             "reference at all — no deferred call is started more often than its defer statement was executed.",
     "note": "trusted: Lean kernel; the harness; the reference interpreter's reading of docs/LANGUAGE.md (+ Go's rules for "
             "defer/panic/recover). Modelled-not-verified: value stack reduced to try markers and frames, symbol tables "
-            "reduced to loop counters, catch sets = catch-all (no `?` operator), three-clause loops only. The refinement "
+            "reduced to loop counters, catch sets = catch-all (no `?` operator), three-clause loops only, `if` only as "
+            "`if <loop counter> == <constant>` without else. The refinement "
             "traceVM (compileCtl p) = traceSpec p is NOT proved (def C10_compile_correct_statement); it is checked by "
             "correspondence on every run. The property is silent about an ERROR leaving an activation (Ego abandons its "
             "deferred calls); the oracle follows Ego there. For `return <expr>` with an UNNAMED result the oracle follows Ego's own tests "
@@ -76,7 +78,12 @@ def run(ctx):
         "distinct_nontrivial": c.get("distinct_nontrivial", 0),
         "rule": "programs of 1-4 functions (no result / one unnamed / one named result) over emit/raise/panic/try-catch/"
                 "defer-closure/call/return/return-with-expression (mkv(k) | f() | 1/zero)/loop/break/continue/"
-                "recover, half of the result functions from the family '0-3 deferred calls, then return <expr>, under a try "
+                "recover/if-on-the-counter-of-an-enclosing-loop, a quarter of the functions (and any nested position) from the family "
+                "'loop whose body leaves the function on pass k >= 1 (return / return <expr> / break / continue under `if i == k`, "
+                "optionally under a try) and registers 1-2 deferred calls BEHIND it in text order on the earlier passes (optionally "
+                "inside a try body, catch block, inner loop or `if i == j`)' (counters ref_late_return_programs, ref_late_returns, "
+                "ref_late_return_defers: returns executed with only later-written defers registered / calls registered then), "
+                "half of the other result functions from the family '0-3 deferred calls, then return <expr>, under a try "
                 "of the same function or not, in a loop or not' (counters shape_ret_<kind>_defers<n>_<try|plain>, "
                 "ref_ret_expr_with_defers, ref_ret_expr_failed), nesting depth <= 6 (quick) / 12 (thorough) plus up to 7 levels of the biased shape family "
                 "(iteration left by break/continue from a catch block or try body 1-3 try levels inside the loop, the "
@@ -84,7 +91,8 @@ def run(ctx):
                 "ref_catch_left_by_break_continue / ref_catch_after_catch_left), fixed corpus of nasty shapes first; each program "
                 "gives 3 protocol lines (vm, spec, skel); non-trivial = the reference run used at least two of: a catch, "
                 "a recover, an error/panic crossing a deferred call or abandoning defers, call depth > 2, a return "
-                "expression evaluated with deferred calls registered",
+                "expression evaluated with deferred calls registered, a return executed while all registered deferred calls "
+                "come from defer statements written behind it",
         "samples": st.get("samples", []),
         "counters": c,
     })
